@@ -44,12 +44,12 @@ def run(ctx):
     drv = leanlib.driver(ctx)
     htoy = cc.build_toy(ctx)
     hreal = cc.build_real(ctx)
-    if not drv or not htoy or not hreal:
-        return
     r = ctx.rng
     pairs = [(u, g) for u in IDS for g in IDS]
     pairs += [(r.randrange(2 ** 32), r.randrange(2 ** 32)) for _ in range(100 if ctx.tier == "quick" else 3000)]
     for variant, h in (("toy", htoy), ("real", hreal)):
+        if not h or (variant == "toy" and not drv):      # (already a failed obligation; the other variant still runs)
+            continue
         ops, want = ["cred conf mackey=%s dekkey=%s" % (K.MK.hex(), K.DK.hex())], [None]
         for (u, g) in pairs:
             reqs = [cc.enc_req(cipher=r.choice([0, 4, 2]), mac=r.choice([3, 5]), zip_=0, data=b"id-test")]
